@@ -253,6 +253,9 @@ func exec(h *rt.H, s *runState, op string) string {
 	case "flush":
 		s.g.flush()
 		return "ok " + strconv.Itoa(len(s.g.dp.objs)) + " " + strconv.Itoa(len(s.g.dp.ipsets))
+	case "dump":
+		s.g.flush()
+		return strings.Join(s.g.dp.lines(), " ;; ")
 	case "check":
 		// the property oracle: accumulated state == state emitted by a fresh graph fed only the final state
 		if !s.insync {
